@@ -324,6 +324,8 @@ def run_case(c, d):
         x = x.astype(float)
     if d.get('amp'):
         x = x * d['amp']
+    if d.get('j', 0) % 7 in (5, 6) and not d.get('workbuf') and not d.get('line'):
+        x = gen.variant(x, gen.LAYOUTS[d['j'] % 7 - 5])       # handed over as a non-contiguous view / read-only array
     if d.get('line') == 'real-axis':
         x = x.astype(complex)                 # complex-typed samples that all lie on the real axis
     elif d.get('line') == 'imag-axis':
